@@ -54,7 +54,7 @@ static puint
 pp_hash_table_calc_hash (pconstpointer pointer, psize modulo)
 {
 	/* As simple as we can :) */
-	return (puint) (((psize) (P_POINTER_TO_INT (pointer) + 37)) % modulo);
+	return (puint) (((psize) ((pssize) P_POINTER_TO_INT (pointer) + 37)) % modulo);
 }
 
 static PHashTableNode *
